@@ -38,14 +38,21 @@ def alphabet(exclude='', extra=''):
     return chars
 
 
+# whole labels that look like syntax of the formats (rules, cell symbols, keywords, numbers)
+LOOKALIKES = ['---', '====', '-+-', ':---:', '--- ---', '=====', '-', '=', '+', 'X', 'x', '.', 'B', '0', '1', 'X X', 'X.X',
+              'lattice', 'objects', 'properties', 'context', 'None', 'True', '3', '3 3']
+
+
 def label_strategy(kind):
     if kind == 'table':
-        return st.text(alphabet(exclude='|#'), min_size=1, max_size=7).map(lambda s: s.strip() or 'x')
-    if kind == 'cxt':
-        return st.text(alphabet(), min_size=1, max_size=7).map(lambda s: s.strip() or 'x')
-    if kind == 'wiki':
-        return st.text(alphabet(exclude='|!'), min_size=1, max_size=7).map(lambda s: s.strip() or 'x')
-    return st.text(alphabet(extra='\n\r\t'), min_size=1, max_size=7)   # csv, python-literal
+        text = st.text(alphabet(exclude='|#'), min_size=1, max_size=7).map(lambda s: s.strip() or 'x')
+    elif kind == 'cxt':
+        text = st.text(alphabet(), min_size=1, max_size=7).map(lambda s: s.strip() or 'x')
+    elif kind == 'wiki':
+        text = st.text(alphabet(exclude='|!'), min_size=1, max_size=7).map(lambda s: s.strip() or 'x')
+    else:
+        text = st.text(alphabet(extra='\n\r\t'), min_size=1, max_size=7)   # csv, python-literal
+    return st.one_of(text, text, text, st.sampled_from(LOOKALIKES))
 
 
 @st.composite
